@@ -50,6 +50,17 @@ def run(tier, seed):
         sel = [fs[i] for i in idx]
         R.guard("cascade-response-multiplies", {"filters": idx}, lambda: (same(CascadeFilter(*sel).freq_response(W), _prod([fr[i] for i in idx])), "cascade"))
         R.guard("parallel-response-adds", {"filters": idx}, lambda: (same(ParallelFilter(*sel).freq_response(W), sum((fr[i] for i in idx), 0)), "parallel"))
+    # nested composites: a bank whose branches are cascades, a cascade of banks, and one level deeper
+    def nested(build, expect, what):
+        return lambda: (same(build().freq_response(W), expect), what)
+    R.guard("nested-composite-responses", {"shape": "parallel(cascade, cascade)"},
+            nested(lambda: ParallelFilter(CascadeFilter(fs[0], fs[1]), CascadeFilter(fs[2], fs[0])), fr[0] * fr[1] + fr[2] * fr[0], "bank of two cascades: sum of the products"))
+    R.guard("nested-composite-responses", {"shape": "parallel(cascade, filter, cascade)"},
+            nested(lambda: ParallelFilter(CascadeFilter(fs[0], fs[1]), fs[2], CascadeFilter(fs[1], fs[2])), fr[0] * fr[1] + fr[2] + fr[1] * fr[2], "bank of cascades and a filter"))
+    R.guard("nested-composite-responses", {"shape": "cascade(parallel, parallel)"},
+            nested(lambda: CascadeFilter(ParallelFilter(fs[0], fs[1]), ParallelFilter(fs[2], fs[0])), (fr[0] + fr[1]) * (fr[2] + fr[0]), "cascade of two banks: product of the sums"))
+    R.guard("nested-composite-responses", {"shape": "parallel(cascade(parallel, filter), cascade)"},
+            nested(lambda: ParallelFilter(CascadeFilter(ParallelFilter(fs[0], fs[2]), fs[1]), CascadeFilter(fs[2], fs[2])), (fr[0] + fr[2]) * fr[1] + fr[2] * fr[2], "three levels"))
     # containers of frequencies: applied per element, same kind of container
     f = ZFilter([1, 2], [1, F(1, 2)])
     for kind, mk in (("list", list), ("tuple", tuple)):
